@@ -728,3 +728,154 @@ def c07_tie(case, impl):
     `Model.Emit` writes for this program's AST (answered by the driver in the suite run)"""
     sk = (case.get("aux") or {}).get("skel", "ok same")
     return None if sk == "ok same" else f"skeleton differs from emitted block keywords: {sk}"
+
+
+# --------------------------------------------------------------------------- C05
+
+CONVERTIBLE = {"INT": "ecb_int", "VAL": "ecb_val", "HEX$": "ecb_hex", "INSTR": "ecb_instr", "STRING$": "ecb_string",
+               "INKEY$": "inkey", "BUTTON": "ecb_button", "JOYSTK": "ecb_joystk", "POINT": "ecb_point", "STR$": "ecb_str"}
+
+
+def src_calls_by_line(text):
+    """{line number: [procedure names in evaluation order]}: convertible functions of each source line,
+    innermost first, left to right (= ordered by the position of their closing parenthesis)"""
+    out = {}
+    for raw in re.split(r"[\r\n]+", text.replace("\x00", "")):
+        m = re.match(r"\s*(\d+)", raw)
+        if not m:
+            continue
+        body = src_blank(raw[m.end():])
+        found = []
+        for fm in re.finditer(r"(INT|VAL|HEX\$|INSTR|STRING\$|INKEY\$|BUTTON|JOYSTK|POINT|STR\$)", body):
+            name = fm.group(1)
+            # not part of a longer identifier / keyword (PRINT contains INT, …); a function may follow a
+            # keyword without a blank (PRINTPOINT(…), THENINT(…))
+            if fm.start() > 0 and body[fm.start() - 1].isalnum():
+                j0 = fm.start()
+                while j0 > 0 and body[j0 - 1].isalnum():
+                    j0 -= 1
+                run_ = body[j0:fm.start()]
+                if not re.search(r"(PRINT|THEN|ELSE|TO|STEP|AND|OR|NOT|ON|IF|LET|GOTO|GOSUB|SOUND|POKE|CLS|WIDTH|LOCATE|ATTR|"
+                                 r"PALETTE|HSCREEN|HCLS|HCOLOR|HDRAW|PLAY|HBUFF|CLEAR)$", run_) or (run_ + name).endswith("PRINT"):
+                    continue
+            if name == "INKEY$":
+                found.append((fm.end() - 1, CONVERTIBLE[name]))
+                continue
+            j = fm.end()
+            while j < len(body) and body[j] == " ":
+                j += 1
+            if j >= len(body) or body[j] != "(":
+                continue
+            depth, k = 0, j
+            while k < len(body):
+                if body[k] == "(":
+                    depth += 1
+                elif body[k] == ")":
+                    depth -= 1
+                    if depth == 0:
+                        break
+                k += 1
+            found.append((k, CONVERTIBLE[name]))
+        out.setdefault(int(m.group(1)), [])
+        out[int(m.group(1))] += [n for _, n in sorted(found)]
+    return out
+
+
+TEMP_RE = re.compile(r"^tmp_\d+\$?$")
+
+
+def c05(case, impl):
+    out = out_text(impl)
+    if out is None or src_comment_closes_early(case["text"]):
+        return None
+    lines = program_lines(case, out)
+    # (1) temporaries: assigned once, before use, inside the same statement group (= output line)
+    for k, line in enumerate(lines):
+        _, rest = T.line_label(line)
+        assigned = set()
+        unread = set()
+        for st in T.split_statements(T.code_tokens(rest)):
+            if not st:
+                continue
+            head = st[0][1].upper() if st[0][0] == "id" else ""
+            temps = [t for kk, t in st if kk == "id" and TEMP_RE.match(t)]
+            result = None
+            if head == "RUN" and st[-1] == ("op", ")") and len(st) >= 3 and st[-2][0] == "id" and TEMP_RE.match(st[-2][1]) \
+                    and st[-3] in (("op", ","), ("op", "(")) and st[1][1] in CONVERTIBLE.values():
+                result = st[-2][1]
+                reads = temps[:-1]
+            elif head == "READ":
+                for t in temps:
+                    if t in assigned:
+                        return f"temporary {t} is assigned twice in one statement group | {line.strip()[:600]}"
+                    assigned.add(t)
+                continue
+            elif head == "FOR" and len(st) > 1 and TEMP_RE.match(st[1][1]):
+                assigned.add(st[1][1])      # the fill loops of DIM use tmp_k as loop variables
+                continue
+            elif head in ("NEXT", "DIM"):
+                continue
+            else:
+                reads = temps
+            for t in reads:
+                if t not in assigned:
+                    return f"temporary {t} is read but this statement group never assigned it | {line.strip()[:600]}"
+                unread.discard(t)
+            if result is not None:
+                if result in unread:
+                    return f"the result in {result} is overwritten by another call before it is used | {line.strip()[:600]}"
+                assigned.add(result)
+                unread.add(result)
+    # (2) no call lost, none duplicated, order kept: per source line
+    want = src_calls_by_line(case["text"])
+    nums = sorted(want)
+    if len(set(nums)) != len(re.findall(r"(?m)^\s*\d+", case["text"].replace("\r", "\n"))):
+        return None
+    got, cur = {}, None
+    for line in lines:
+        lab, rest = T.line_label(line)
+        if lab is not None and lab in want:
+            cur = lab
+        if cur is None:
+            continue
+        for callee, args, _ in T.run_calls(T.code_tokens(rest)):
+            if callee in CONVERTIBLE.values():
+                got.setdefault(cur, []).append(callee)
+    if flag(case, 3) or 0 in nums:
+        return None     # with label filtering (or an unlabelled line 0) the output cannot be cut into source lines
+    for n in nums:
+        w = [c for c in want[n] if c != "ecb_str"]
+        g = [c for c in got.get(n, []) if c != "ecb_str"]
+        if w != g:
+            return f"source line {n} calls {w} (innermost first, left to right) but the output calls {g}"
+    return None
+
+
+def c05_classify(case, impl, why):
+    text = case["text"]
+    out = out_text(impl) or ""
+    if ("assigned twice" in why or "overwritten" in why) and re.search(r"(?i)\(\s*RUN |,\s+RUN ", why.split("|", 1)[1]):
+        return "hoisted-call-captured-by-default-colour"
+    if "is read but this statement group never assigned it" in why:
+        line = why.split("|", 1)[1]
+        if re.search(r"^\s*(\d+ )?\s*(IF .* THEN|EXITIF .* THEN|ELSE|LOOP)\s*$", line) or re.search(r"\b(EXITIF|IF)\b[^\\]*\bTHEN\s*$", line):
+            return "if-else-condition-drops-hoisted-call"
+        if re.search(r"\b(READ|INPUT)\b", line):
+            return "read-input-subscript-not-visited"
+        if re.search(r"(?i)\(\s*RUN |,\s+RUN ", line):
+            return "hoisted-call-captured-by-default-colour"
+        return None
+    m = re.match(r"source line (\d+) calls", why)
+    if m:
+        n = int(m.group(1))
+        src_line = next((l for l in re.split(r"[\r\n]+", text) if re.match(rf"\s*{n}\b", l)), "")
+        body = src_blank(src_line)
+        if re.search(r"\bELSE\b", body) and re.search(r"\bIF\b", body):
+            return "if-else-condition-drops-hoisted-call"
+        if re.search(r"(READ|INPUT)[^:]*\(", body):
+            return "read-input-subscript-not-visited"
+        if "VARPTR" in body:
+            return "varptr-argument-not-visited"
+        if re.search(r"HCIRCLE[^:]*,,", body):
+            return "hoisted-call-captured-by-default-colour"
+    return None
